@@ -138,3 +138,8 @@ def gating(vc):
 from contracts import c04_responses as _C04
 for _code in (0x0000, 0x1000, 0x1001, 0x1002, 0x1003, 0x1100, 0x1200):
     _C04._mk_error(_code, prop='C16', label='decoded-')
+
+# "retry on the same host" means that host only: C17's contract on the continuation _retry_task (scheduled by _retry, A-EXEC), re-discharged here.
+from contracts import c17_plan_order as _C17
+_RF16 = 'cassandra.cluster.ResponseFuture.'
+harness('C16', 'retry-continuation', functions=[_RF16 + '_retry_task', _RF16 + '_query', _RF16 + 'send_request'], native='contracts.native.c17:replay')(_C17.retry_task)
